@@ -46,6 +46,12 @@ func RunPlan(p Plan, finish func(r *Runner) error) (res Result, err error) {
 		}
 		r := NewRunner(&p, fs)
 		r.Ev.Trace = DebugTrace
+		foregroundGID.Store(curGoroutineID())
+		if sfs != nil {
+			sfs.stepNow = r.stepA.Load
+			defer sfs.on.Store(false)
+			defer func() { r.C["sched-manifest-sync-holds"] += int(sfs.holds.Load()) }()
+		}
 		if sfs != nil {
 			defer func() { r.C["sched-pauses"] += int(sfs.cnt.Load()) }()
 		}
